@@ -94,6 +94,14 @@ def run(ctx):
     # (a) read loop: model, then the real loop observed through open()
     res = tlc.run('MC_Files', 'MC_Files_read.cfg', workdir=ctx.work, workers=4, coverage=True)
     ctx.tlc(res, 'Files read loop: Tiled, WholeContent, OnlyLastShort for every (length, chunk size)')
+    # the same loop for unbounded lengths and chunk sizes (Apalache, inductive invariant); a clause that forgets the
+    # extra empty read must be refuted
+    base = tlc.apalache('ReadLoopInd', 'Init', 'IndInv', 0, ctx.work)
+    step = tlc.apalache('ReadLoopInd', 'IndInit', 'IndInv', 1, ctx.work)
+    wrong = tlc.apalache('ReadLoopInd', 'Init', 'WrongInv', 3, ctx.work)
+    if (base, step, wrong) != ('ok', 'ok', 'violation'):
+        raise MachineryError('ReadLoopInd: base %s, step %s, wrong clause %s' % (base, step, wrong))
+    ctx.stage('apalache-inductive', base=base, step=step, wrong_clause=wrong)
     recs = [r for r in res.records if 'pieces' in r]
     tables = [r for r in res.records if 'last' in r][0]
     if len(recs) < 1000:
